@@ -31,7 +31,7 @@ ASSUMPTIONS = ["dashed top-level UIDs occur only on childless variants and never
 REQUIRED_REACH = ["composeinfo.VariantBase.add", "composeinfo.VariantBase._get_all_parents", "composeinfo.VariantBase.__getitem__",
                   "composeinfo.VariantBase.get_variants", "composeinfo.Variant._validate_uid", "composeinfo.Variant._validate_parent_arch"]
 REQUIRED_MONITORS = ["add-outcome", "forest-after-call", "invariant-walk", "lookup", "get-variants"]
-KINDS = ["valid", "valid", "valid", "dup-id", "foreign-arch", "foreign-arch-first-child", "misaligned-uid", "bad-id", "cycle", "readd",
+KINDS = ["valid", "valid", "valid", "dup-id", "dup-uid", "foreign-arch", "foreign-arch-first-child", "misaligned-uid", "bad-id", "cycle", "readd",
          "cycle-respelled"]
 CLASS_FLOORS = dict(("op-" + k, 10) for k in set(KINDS))
 CLASS_FLOORS.update({"ten-or-more-siblings": 10, "depth-3": 10, "dashed-top": 5, "after-reload": 10, "query-recursive": 50, "query-arch-nobody-has": 20,
@@ -99,6 +99,9 @@ class Forest(object):
         for c in self.children(target):
             if self.specs[c]["id"] == vid:
                 return "refuse", "duplicate id"
+        # UIDs are unique in the whole forest: a child 'Tools' of 'E' and a top-level 'E-Tools' (id 'ETools') share one
+        if any(self.specs[o]["uid"] == spec["uid"] for o in self.parent if o != h):
+            return "refuse", "duplicate uid"
         return "accept", None
 
     def apply(self, target, h):
@@ -202,6 +205,37 @@ def gen_history(rng):
                 target, h = rng.choice(pairs)
                 verdict, why = F.predict(target, h)
                 ops.append({"kind": kind, "target": target, "handle": h, "expect": verdict, "why": why})
+                continue
+        if kind == "dup-uid":
+            # a variant whose UID another variant of the forest already carries, under ANOTHER parent: the child <b> of <a>
+            # next to a top-level '<a>-<b>', in either order
+            made = None
+            tops = dict((F.specs[h0]["uid"], h0) for h0 in attached if F.parent[h0] is None)
+            for h0 in attached:
+                s0 = F.specs[h0]
+                if F.parent[h0] is None and s0.get("dashed") and s0["uid"].split("-", 1)[0] in tops and s0["uid"].count("-") == 1:
+                    a, b = s0["uid"].split("-", 1)
+                    par = F.specs[tops[a]]
+                    if b.isalnum() and b not in [F.specs[c]["id"] for c in F.children(tops[a])]:
+                        made = (tops[a], {"id": b, "uid": s0["uid"], "name": "dup", "type": "variant", "arches": sorted(par["arches"])[:1]})
+                        break
+                elif F.parent[h0] is not None and F.parent[F.parent[h0]] is None and "-" not in F.specs[F.parent[h0]]["uid"]:
+                    a, b = F.specs[F.parent[h0]]["uid"], s0["id"]
+                    if (a + b) not in [F.specs[t]["id"] for t in tops.values()]:
+                        made = (None, {"id": a + b, "uid": a + "-" + b, "name": "dup", "type": "variant", "arches": ["x86_64"], "dashed": True})
+                        break
+            if made is None:
+                kind = "valid"
+                cands = [None] + [h for h in attached if F.depth(h) < 3]
+            else:
+                target, spec = made
+                F.specs.append(spec)
+                h = len(F.specs) - 1
+                verdict, why = F.predict(target, h)
+                if verdict != "refuse":
+                    F.specs.pop()
+                else:
+                    ops.append({"kind": kind, "target": target, "handle": h, "expect": verdict, "why": why})
                 continue
         if kind == "cycle-respelled":
             # an ancestor whose UID and arches were re-spelled by the caller so that they ALIGN with the descendant it is
